@@ -116,6 +116,14 @@ def trace_run(name, defs, tier, seed, cfgs, jvms=10):
         m = meta_by_idx[info["d"]]
         findings.append({"def": m["id"], "cfg": ",".join(cs), "kind": "trace_" + r["event"].get("e", "?"), "input": info["data"].hex(), "partial": info["partial"],
                          "event_index": r["event_index"], "event": r["event"], "trace": runs[r["run"]][: r["event_index"] + 2][-12:], "src": m["src"]})
+    # implementation level: the same traces against the GraphLex model of the generated code
+    gacc, grej, gtotal = validate(defs_path, runs, name + "g", spec="GraphTrace.tla", cfg="GraphTrace.cfg", jvms=jvms)
+    drift = []
+    for r in grej:
+        i, cs = run_info[r["run"]]
+        line, info = requests[i]
+        m = meta_by_idx[info["d"]]
+        drift.append({"def": m["id"], "cfg": ",".join(cs), "input": info["data"].hex(), "partial": info["partial"], "event_index": r["event_index"], "event": r["event"]})
     samples = []
     for k in range(0, len(runs), max(1, len(runs) // 4)):
         i, cs = run_info[k]
@@ -123,7 +131,8 @@ def trace_run(name, defs, tier, seed, cfgs, jvms=10):
     out = {"name": name, "tier": tier, "seed": seed, "cfgs": cfgs, "requests": len(requests), "runs": len(requests) * len(cfgs),
            "distinct_traces": len(runs), "accepted": accepted, "events": sum(len(r) for r in runs), "events_consumed": total,
            "findings": findings[:2000], "n_findings": len(findings), "samples": samples[:4], "wall": time.time() - t0,
-           "defs": len(metas), "explored": len({r[1]["d"] for r in requests})}
+           "defs": len(metas), "explored": len({r[1]["d"] for r in requests}),
+           "graphtrace_accepted": gacc, "graphtrace_events": gtotal, "drift": drift[:200], "n_drift": len(drift)}
     with open(cache, "w") as f:
         json.dump(out, f)
     return out
